@@ -4,6 +4,7 @@ import Model.Search
 import Generated.C10
 import Proofs.LoaderArpa
 import Proofs.LoaderProbing
+import Proofs.LoaderTrieBuild
 import Proofs.Search
 import Proofs.WellFormed
 /-! C10 — Loaders reject malformed input with an exception and never misbehave.
@@ -708,6 +709,119 @@ theorem probing_accept_wellformed_prefixClosed (maxO : Nat) (multOk : Bool) (b :
 /-- the converse view: C01's `WellFormed` is the weakened predicate with the blank disjunct never used -/
 theorem wellFormedThroughBlanks_of_wellFormed (a : Arpa) (w : KV.Score.WellFormed a) : WellFormedThroughBlanks a :=
   ⟨w.order_ge, w.len_pos, w.len_le, fun x g hne hg => Or.inl (w.ctx_present x g hne hg), w.top_bo⟩
+
+/-! ## the loader model's trie verdict against `KV.TrieBuild.buildTable` (builder `binary`'s model of lm/search_trie.cc)
+
+`buildTable` has the error type `Table.build` lacks, so the `.error ⇒ condition` directions can be stated against it.  Its input
+is the list of all n-grams *including* the hallucinated `<unk>`: the keys of `p.toArpa`. -/
+
+theorem gram_ne_none_iff (a : Arpa) (k : List Word) : a.gram k ≠ none ↔ k ∈ a.entries.map (·.1) := by
+  unfold Arpa.gram
+  constructor
+  · intro h
+    obtain ⟨e, he⟩ := Option.ne_none_iff_exists'.mp h
+    exact List.mem_map.mpr ⟨(k, e), KV.Score.lookup_some_mem _ _ _ he, rfl⟩
+  · intro h hn
+    have := List.lookup_eq_none_iff.mp hn
+    obtain ⟨q, hq, rfl⟩ := List.mem_map.mp h
+    simp at this
+    exact this _ _ hq rfl
+
+theorem toArpa_keys (p : LParsed) (u : Rat) :
+    (p.toArpa u).entries.map (·.1) = if p.sawUnk then p.keys else [0] :: p.keys := by
+  have key1 : ∀ le, (toEntry le).1 = le.1 := by
+    intro le; unfold toEntry; split <;> rfl
+  have : (p.entries.map toEntry).map (·.1) = p.keys := by
+    unfold LParsed.keys
+    rw [List.map_map]
+    apply List.map_congr_left
+    intro le _
+    exact key1 le
+  unfold LParsed.toArpa
+  simp only
+  split <;> simp [this]
+
+/-- **`buildTable = .error .missingContext` ⇒ the loader model's trie verdict is FormatLoadException.**  (The bigram case of
+`buildTable`'s check cannot fire on a parsed file: the unigrams cover the vocabulary.) -/
+theorem trie_reject_of_buildTable_missingContext (maxO : Nat) (multOk : Bool) (s : Bytes) (p : LParsed) (u : Rat) (b : Nat → Nat)
+    (fadd : Nat → Nat → Nat) (gs : List KV.TrieBuild.Gram)
+    (hp : LoaderArpa.parse maxO multOk s = .ok p) (hk : gs.map (·.key) = (p.toArpa u).entries.map (·.1))
+    (h : KV.TrieBuild.buildTable fadd p.order gs = .error .missingContext) :
+    buildCheck .trie b p = .error .format := by
+  obtain ⟨g, hg, hl, hr⟩ := KV.TrieBuild.buildTable_missingContext fadd p.order gs h
+  have htail : g.key.drop 1 ∉ (p.toArpa u).entries.map (·.1) := by
+    rw [← hk]
+    intro hm
+    obtain ⟨g', hg', he⟩ := List.mem_map.mp hm
+    exact hr g' hg' he
+  have hkey : g.key ∈ (p.toArpa u).entries.map (·.1) := by rw [← hk]; exact List.mem_map_of_mem hg
+  have hkp : g.key ∈ p.keys := by
+    rw [toArpa_keys] at hkey
+    split at hkey
+    · exact hkey
+    · rcases List.mem_cons.mp hkey with h0 | h0
+      · rw [h0] at hl; simp at hl
+      · exact h0
+  have hsub : ∀ k, k ∈ p.keys → k ∈ (p.toArpa u).entries.map (·.1) := by
+    intro k hk'
+    rw [toArpa_keys]
+    split
+    · exact hk'
+    · exact List.mem_cons_of_mem _ hk'
+  unfold LParsed.keys at hkp
+  obtain ⟨le, hle, hlek⟩ := List.mem_map.mp hkp
+  by_cases h3 : 3 ≤ g.key.length
+  · apply (trie_error_iff b p).1.mpr
+    refine ⟨le, hle, by rw [hlek]; exact h3, ?_⟩
+    intro hin
+    apply htail
+    rw [List.drop_one, ← hlek]
+    exact hsub _ hin
+  · exfalso
+    have h2 : g.key.length = 2 := by omega
+    obtain ⟨x, w, hxw⟩ : ∃ x w, g.key = [x, w] := by
+      match hgk : g.key, h2 with
+      | [x, w], _ => exact ⟨x, w, rfl⟩
+    have hg2 : (p.toArpa u).gram [x, w] ≠ none := (gram_ne_none_iff _ _).mpr (by rw [← hxw]; exact hkey)
+    obtain ⟨e, he⟩ := Option.ne_none_iff_exists'.mp hg2
+    have := parse_unigramsCover maxO multOk s p u hp x w e he
+    apply htail
+    rw [hxw]
+    exact (gram_ne_none_iff _ _).mp this
+
+/-- **the loader model's trie verdict FormatLoadException ⇒ `buildTable` does not succeed** (it reports `missingContext`,
+unless it reports a duplicate or a missing unigram first) -/
+theorem buildTable_not_ok_of_trie_reject (p : LParsed) (u : Rat) (b : Nat → Nat) (fadd : Nat → Nat → Nat)
+    (gs : List KV.TrieBuild.Gram) (hk : gs.map (·.key) = (p.toArpa u).entries.map (·.1))
+    (h : buildCheck .trie b p = .error .format) (built : KV.TrieBuild.Built) :
+    KV.TrieBuild.buildTable fadd p.order gs ≠ .ok built := by
+  obtain ⟨le, hle, h3, hn⟩ := (trie_error_iff b p).1.mp h
+  have hkin : le.1 ∈ gs.map (·.key) := by
+    rw [hk, toArpa_keys]
+    have : le.1 ∈ p.keys := List.mem_map_of_mem hle
+    split
+    · exact this
+    · exact List.mem_cons_of_mem _ this
+  obtain ⟨g, hg, hgk⟩ := List.mem_map.mp hkin
+  apply KV.TrieBuild.buildTable_not_ok_of_missing fadd p.order gs ⟨g, hg, by rw [hgk]; omega, ?_⟩
+  intro g' hg' he
+  have : g'.key ∈ (p.toArpa u).entries.map (·.1) := by rw [← hk]; exact List.mem_map_of_mem hg'
+  rw [he, hgk, List.drop_one, toArpa_keys] at this
+  split at this
+  · exact hn this
+  · rcases List.mem_cons.mp this with h0 | h0
+    · have : le.1.tail.length = 1 := by rw [h0]; rfl
+      simp at this; omega
+    · exact hn h0
+
+/-- **`buildTable = .error .duplicate` ⇒ some n-gram occurs twice in the file.**  (The converse is deliberately not a theorem of
+the loader model: the real sort only notices duplicates that meet in a merge — `trie_duplicate_iff` — whereas `buildTable`
+models the sorted result set-wise.) -/
+theorem duplicate_keys_of_buildTable_duplicate (p : LParsed) (u : Rat) (fadd : Nat → Nat → Nat) (gs : List KV.TrieBuild.Gram)
+    (hk : gs.map (·.key) = (p.toArpa u).entries.map (·.1))
+    (h : KV.TrieBuild.buildTable fadd p.order gs = .error .duplicate) : ¬ ((p.toArpa u).entries.map (·.1)).Nodup := by
+  rw [← hk]
+  exact KV.TrieBuild.buildTable_duplicate fadd p.order gs h
 
 /-! ## no index leaves its region -/
 
